@@ -1224,18 +1224,25 @@ fn many_distinct_tokens(ctx: &mut Ctx) {
     new_lines.remove(65_990);
     let new: String = new_lines.concat();
     let req = format!("text lines str myers - - | <{} distinct lines> | <2 edits + 1 deletion> | - | -", n);
-    distinct_tokens_case(ctx, Algorithm::Myers, &req, &old, &new);
+    if ctx.take() {
+        distinct_tokens_case(ctx, Algorithm::Myers, &req, &old, &new);
+    }
     // (b) fewer than 65535 tokens on each side, more than 65536 distinct tokens on the two sides together
     let n = 65_000usize;
     let old: String = (0..n).map(|i| format!("{}\n", i)).collect();
     let new: String = (0..n).map(|i| if i % 100 == 7 { format!("n{}\n", i) } else { format!("{}\n", i) }).collect();
     let req = format!("text lines str patience - - | <{} distinct lines> | <every 100th line replaced by a fresh one: 65650 distinct lines in all> | - | -", n);
-    distinct_tokens_case(ctx, Algorithm::Patience, &req, &old, &new);
+    if ctx.take() {
+        distinct_tokens_case(ctx, Algorithm::Patience, &req, &old, &new);
+    }
     // (c) a BIRTHDAY case: 240 000 distinct tokens per side, each of them an anchor that decides how its block is aligned
     // (blocks `S_i U_i r r r` against `S_i r r r U_i`, as in the determinism suite). If tokens are identified by
     // anything narrower than the tokens themselves -- a 32-bit hash, a truncated fingerprint -- some two of them almost
     // surely coincide (expected number of coinciding pairs at 32 bits: 240 000^2 / 2^33 = 6.7), both stop being unique,
     // their blocks are aligned differently, and the ops are no longer the ops of the token diff
+    if !ctx.take() {
+        return;
+    }
     let nb = 120_000usize;
     let mut old = String::with_capacity(nb * 24);
     let mut new = String::with_capacity(nb * 24);
@@ -1283,6 +1290,9 @@ fn big_middle_text_cases(ctx: &mut Ctx) {
     let old = format!("{}{}{}", head, mid_old, tail);
     let new = format!("{}{}{}", head, mid_new, tail);
     for alg in ALGS {
+        if !ctx.take() {
+            continue;
+        }
         let c = TextCfg { kind: Kind::Lines, alg, nlt: None, dl: None };
         let req = format!("text lines str {} - - | <5 shared lines, 1100 old lines, 5 shared lines> | <5 shared, 1100 lines of which every 50th is kept, 5 shared> | - | -", alg_name(alg));
         ctx.count("text.big_middle_cases");
@@ -1298,13 +1308,21 @@ fn big_middle_text_cases(ctx: &mut Ctx) {
     for &m in sizes {
         let mid_old: String = (0..m).map(|i| format!("o{}\n", i)).collect();
         let mid_new: String = (0..m + 7).map(|i| format!("n{}\n", i)).collect();
-        for (h, t) in [(5usize, 5usize), (0, 3), (4, 0)] {
+        // a second shape: ALMOST disjoint -- one item at the very start of the old middle occurs twice near the start of
+        // the new middle (the table stays tiny), so that WHICH occurrence is matched tells the algorithms apart
+        let mid_old2 = format!("a\n{}", mid_old);
+        let mid_new2 = format!("b\na\na\n{}", mid_new);
+        for (h, t, shape) in [(5usize, 5usize, 0usize), (0, 3, 0), (4, 0, 0), (0, 0, 1), (3, 2, 1)] {
+            let (mid_old, mid_new) = if shape == 0 { (&mid_old, &mid_new) } else { (&mid_old2, &mid_new2) };
             let head: String = (0..h).map(|i| format!("head {}\n", i)).collect();
             let tail: String = (0..t).map(|i| format!("tail {}\n", i)).collect();
             let old = format!("{}{}{}", head, mid_old, tail);
             let new = format!("{}{}{}", head, mid_new, tail);
             for alg in ALGS {
                 if m > 4000 && alg != Algorithm::Lcs {
+                    continue;
+                }
+                if !ctx.take() {
                     continue;
                 }
                 let c = TextCfg { kind: Kind::Lines, alg, nlt: None, dl: None };
@@ -1406,15 +1424,12 @@ fn wall_clock_cases(ctx: &mut Ctx) {
 }
 
 pub fn suite_text(ctx: &mut Ctx) {
-    if ctx.take() {
-        many_distinct_tokens(ctx);
-    }
+    // the big implementation-only cases take their shard turn one by one (inside), so that the shards share them
+    many_distinct_tokens(ctx);
     if ctx.take() {
         wall_clock_cases(ctx);
     }
-    if ctx.take() {
-        big_middle_text_cases(ctx);
-    }
+    big_middle_text_cases(ctx);
     const PIECES: [&str; 8] = ["a\n", "b\n", "a\r\n", "c\r", "a", " ", "é", "x y"];
     let (nrand, nbig) = match ctx.tier {
         Tier::Quick => (3000, 20),
@@ -1510,9 +1525,9 @@ pub fn suite_text(ctx: &mut Ctx) {
                     format!("h{}\n", t).into_bytes()
                 }
             };
-            // mostly just above the 100-token switch; every fourth case far above it (any further size threshold of a
+            // mostly just above the 100-token switch; every eighth case far above it (any further size threshold of a
             // "trim the shared ends of LARGE texts first" step lies well below 10 000 tokens or is irrelevant in practice)
-            let n = if j % 4 == 3 { [4100, 4300, 8200, 9000][((j / 4) % 4) as usize] + rng.below(50) } else { rng.range(101, 125) };
+            let n = if j % 8 == 3 { [4100, 4300, 8200, 9000][((j / 8) % 4) as usize] + rng.below(50) } else { rng.range(101, 125) };
             let mut head: Vec<u32> = (0..n as u32).map(|i| 10 + i).collect();
             for t in 0..rng.range(1, 3) as u32 {
                 let at = rng.below(head.len());
@@ -3572,7 +3587,17 @@ fn identify_case(ctx: &mut Ctx, c: &IdCase) -> String {
             // string-like hashes must give the very same ids (a table keyed by a hash or fingerprint of the items
             // instead of the items gives one number to unequal items)
             for (salt, what) in [(obs::WEAK_HASH, "a hash that keeps only the parity of the item"), (obs::CONST_HASH, "a constant hash"), (obs::STR_HASH, "a string-like hash")] {
-                if identify_run_salted::<u32>(c, salt).as_ref() != Some(r32) {
+                let rs = identify_run_salted::<u32>(c, salt);
+                // also compared with the model (whose numbering knows nothing about hashes): the same request, the answer
+                // of the run with differently hashing items
+                let ans_s = match &rs {
+                    Some((o, n, rg)) => format!("ok I={};{} R={},{},{},{}", csv(o), csv(n), rg.0, rg.1, rg.2, rg.3),
+                    None => "panic".to_string(),
+                };
+                if (c.os + c.ne + salt as usize) % 4 == 0 || ans_s != ans {
+                    ctx.emit(&req, &ans_s);
+                }
+                if rs.as_ref() != Some(r32) {
                     ctx.violation("C14", &req, format!("IdentifyDistinct gives different ids when the items hash differently ({}): equal numbers no longer mean equal items", what));
                     break;
                 }
